@@ -46,6 +46,9 @@ def rw_let_prefix(rng, prog, via_into=False):
     if not cuts:
         return None
     c = rng.choice(cuts)
+    at_b = [x for x in cuts if x["at"] == prog.get("boundary_at")]
+    if at_b and rng.random() < 0.8:
+        c = at_b[0]
     name = "pfx%d" % (len(prog.get("lets", [])) + 1)
     p = copy.deepcopy(prog)
     prefix, suffix = p["main"][:c["at"]], p["main"][c["at"]:]
@@ -262,7 +265,7 @@ def _shard(seed, shard, n_bases):
     w = core.Worker()
     viols, seen = [], set()
     obs = {"bases": 0, "bases_ok": 0, "pairs": 0, "pairs_sql_differs": 0, "by_rewrite": {}, "base_not_clean": 0, "rewrite_unspecified": 0,
-           "nontrivial": set(), "cte_delta": {}}
+           "nontrivial": set(), "cte_delta": {}, "boundary_pairs": set()}
     dbi = 0
     while obs["bases"] < n_bases:
         db = grel.gen_db(rng, relcheck.DB_KINDS[dbi % 5])
@@ -271,19 +274,31 @@ def _shard(seed, shard, n_bases):
         w.db_open("d", grel.db_stmts(db))
         for _ in range(8):
             try:
-                prog = grel.random_program(rng, rng.choice(["core", "core", "project", "sort"]))
+                if rng.random() < 0.4:
+                    prog = grel.boundary_program(rng)
+                    obs["boundary_bases"] = obs.get("boundary_bases", 0) + 1
+                else:
+                    prog = grel.random_program(rng, rng.choice(["core", "core", "project", "sort", "window"]))
                 src = grel.pp_program(prog)
             except (ValueError, IndexError):
                 continue
             obs["bases"] += 1
             dialect = rng.choice(["sqlite", "generic"])
             o = relcheck.run_case(w, prog, db, "d", dialect, src=src)
-            if o.status != "judged" or o.symptoms or o.model is None:
+            base_bad = [s for s in o.symptoms if s[0] in ("C01", "C03", "C05", "C07")] if o.status == "judged" and o.model is not None else []
+            if o.status != "judged" or o.model is None or (o.symptoms and not base_bad):
                 obs["base_not_clean"] += 1
                 continue
-            obs["bases_ok"] += 1
-            for _ in range(4):
+            if base_bad:
+                obs["bases_deviating"] = obs.get("bases_deviating", 0) + 1
+            else:
+                obs["bases_ok"] += 1
+            for ri in range(4 if not base_bad else 2):
                 rw = rng.choice(REWRITES)
+                if ri == 0 and prog.get("boundary_at"):
+                    rw = rw_let_prefix
+                    if not base_bad and o.sql:
+                        obs["boundary_pairs"].add(tuple(prog["boundary"]))
                 try:
                     res = rw(rng, prog)
                 except Exception:
@@ -309,6 +324,22 @@ def _shard(seed, shard, n_bases):
                 o2 = relcheck.run_case(w, p2, db, "d", dialect, src=src2)
                 sym = None
                 under = None
+                if base_bad:
+                    # the base deviates from the model: the pair disagrees if the rewritten side is clean
+                    # (if both deviate the defect is not one of the rewrite; C01/C03/C05/C07 own it)
+                    if o2.status == "judged" and o2.model is not None and not [s for s in o2.symptoms if s[0] in ("C01", "C03", "C05", "C07")]:
+                        obs["pairs_only_base_deviates"] = obs.get("pairs_only_base_deviates", 0) + 1
+                        sym, det = "base_" + base_bad[0][1], base_bad[0][2]
+                        inh = inherited(w, prog, db, dialect, o, (base_bad[0][0], base_bad[0][1]))
+                        key = (sym, kind, inh)
+                        wit = None
+                        if key not in seen:
+                            seen.add(key)
+                            wit = {"base": prog, "rewritten": p2, "db": db, "dialect": dialect, "rewrite": name,
+                                   "base_prql": src, "rewritten_prql": src2}
+                        viols.append({"property": "C06", "symptom": sym, "shape": "%s :: %s :: %s" % (dialect, kind, inh), "witness": wit,
+                                      "detail": "only the base deviates from the model, the rewritten program agrees with it: " + str(det)[:300] + " || base sql: " + (o.sql or "")[:300]})
+                    continue
                 if o2.status == "rejected":
                     sym, det = "rewritten_rejected", o2.obs.get("reject_reason", "")
                 elif o2.status in ("panic", "abort"):
@@ -341,6 +372,7 @@ def _shard(seed, shard, n_bases):
                                   "detail": str(det)[:300] + " || sql: " + (o2.sql or "")[:300]})
     w.close()
     obs["nontrivial"] = [list(x) for x in obs["nontrivial"]]
+    obs["boundary_pairs"] = [list(x) for x in obs["boundary_pairs"]]
     return viols, obs
 
 
@@ -350,9 +382,11 @@ def run(tier, seed):
     n = 250 if tier == "quick" else 12000
     res = core.run_shards(_shard, [dict(seed=seed, shard=i, n_bases=n) for i in range(N)])
     obs = {"nontrivial": set()}
+    bpairs = set()
     for v, o in res:
         run.extend(v)
         obs["nontrivial"] |= set((a, tuple(b)) for a, b in o.pop("nontrivial"))
+        bpairs |= set(tuple(x) for x in o.pop("boundary_pairs"))
         core.merge_counts(obs, o)
     best = {}
     for v in run.violations:
@@ -364,13 +398,15 @@ def run(tier, seed):
     run.coverage = {
         "evaluations": obs.get("pairs", 0),
         "distinct_nontrivial": len(nt),
-        "rule": "pair = (base program whose execution agrees with the reference model, rewritten program) on the same database; rewrites: name a prefix with let and continue from it, abstract a scalar expression into a user function (positional / piped / named-with-default / named-given), split a conjunctive filter, merge consecutive filters, insert frame identities (filter true, select of all columns, repeated sort, derive-then-drop), move a let into a module and refer to it by path; compositions of two; "
+        "rule": "pair = (base program whose execution agrees with the reference model, rewritten program) on the same database; rewrites: name a prefix with let and continue from it, abstract a scalar expression into a user function (positional / piped / named-with-default / named-given), split a conjunctive filter, merge consecutive filters, insert frame identities (filter true, select of all columns, repeated sort, derive-then-drop), move a let into a module and refer to it by path; compositions of two; 40% of the bases are boundary programs (from | select | .. | END | START | ..) for every pairing of the transform kind that ends the let-extracted prefix with the kind that starts the suffix, cut exactly there; "
                 "distinct non-trivial = distinct (rewrite kind, base transform-kind sequence) whose two SQL texts differ",
         "samples": [],
     }
     run.coverage.update(obs)
+    run.coverage["boundary_kind_pairs_covered"] = len(bpairs)
+    run.coverage["boundary_kind_pairs_possible"] = len(set(grel.BOUNDARY_END)) * len(set(grel.BOUNDARY_START))
     run.assumptions = c01.ASSUMPTIONS + [
-        "a pair is judged only if the base execution is clean (agrees with the model, no other symptom); base defects belong to C01/C03/C05/C07",
+        "both programs of a pair are executed and each is compared with the reference model on the same database; the pair disagrees when exactly one side deviates (symptoms rewritten_* / base_*). When both deviate the defect is not one of the rewrite and C01/C03/C05/C07 own it",
         "the rewritten program must compile, agree with the model and return the same bag of rows as the base; a rejection of the rewritten side is a violation (the rewrite is defined to be equivalent)",
         "let-prefix rewrites are applied only where the prefix frame is fully known with unique names (so the suffix can address it through the new name)",
     ]
@@ -411,4 +447,14 @@ def replay(case):
             inh = inherited(w2, case["rewritten"], case["db"], case["dialect"], o2, under)
             w2.close()
             out.append({"property": "C06", "symptom": sym, "shape": "%s :: %s :: %s" % (case["dialect"], kind, inh), "witness": case, "detail": det})
+    elif o.status == "judged" and o.model is not None and o2.status == "judged" and o2.model is not None:
+        bad = [s for s in o.symptoms if s[0] in ("C01", "C03", "C05", "C07")]
+        bad2 = [s for s in o2.symptoms if s[0] in ("C01", "C03", "C05", "C07")]
+        if bad and not bad2:
+            w2 = core.Worker()
+            w2.db_open("d", grel.db_stmts(case["db"]))
+            inh = inherited(w2, case["base"], case["db"], case["dialect"], o, (bad[0][0], bad[0][1]))
+            w2.close()
+            out.append({"property": "C06", "symptom": "base_" + bad[0][1], "shape": "%s :: %s :: %s" % (case["dialect"], kind, inh), "witness": case,
+                        "detail": "only the base deviates from the model: " + bad[0][2]})
     return out
